@@ -131,6 +131,9 @@ type cluster struct {
 	leaseMutex   sync.RWMutex
 	sessionMutex sync.RWMutex
 
+	mutexes      map[string]*mutex
+	mutexesMutex sync.Mutex
+
 	done chan struct{}
 }
 
